@@ -59,12 +59,30 @@ def _is_user_like_ref(e: ast.AST) -> bool:
     return d.endswith("config.log_likelihood")
 
 
+def _callable_sources(wrapper: FuncInfo, c: ast.Call) -> List[ast.expr]:
+    """Expressions the callee of `c` can be: the function expression itself, or -- for a local name such as
+    `distribute = map if ... else self._dispatch()` -- every value that reaches it."""
+    f = c.func
+    if isinstance(f, ast.Name):
+        flow = flow_of(wrapper.node)
+        at = flow.node_containing(c)
+        ds = flow.reaching(at, f.id) if at is not None else []
+        out: List[ast.expr] = []
+        for d in ds:
+            if d.kind == "assign" and d.value is not None and not d.path:
+                v = d.value
+                out += [v.body, v.orelse] if isinstance(v, ast.IfExp) else [v]
+        return out or [f]
+    return [f]
+
+
 def dispatcher_fn(ctx: Context, wrapper: FuncInfo) -> FuncInfo:
     for c in calls_in(wrapper.node):
-        if isinstance(c.func, ast.Call):
-            for t in ctx.res.call_targets(wrapper, c.func):
-                if isinstance(t, FuncInfo):
-                    return t
+        for src in _callable_sources(wrapper, c):
+            if isinstance(src, ast.Call):
+                for t in ctx.res.call_targets(wrapper, src):
+                    if isinstance(t, FuncInfo):
+                        return t
     raise AnalysisError("C13: dispatcher (callable-returning helper used by the wrapper) not found")
 
 
@@ -111,7 +129,8 @@ def rule_a(ctx: Context, R: Reporter, wrapper: FuncInfo, disp: FuncInfo):
     for c in calls_in(wrapper.node):
         if any(_is_user_like_ref(a) for a in c.args):
             n += 1
-            fn_ok = (isinstance(c.func, ast.Name) and c.func.id == "map") or (isinstance(c.func, ast.Call) and any(t is disp for t in ctx.res.call_targets(wrapper, c.func)))
+            srcs = _callable_sources(wrapper, c)
+            fn_ok = bool(srcs) and all((isinstance(x, ast.Name) and x.id == "map") or (isinstance(x, ast.Call) and any(t is disp for t in ctx.res.call_targets(wrapper, x))) for x in srcs)
             R.check("C13.a", "the user likelihood is mapped by builtin map or the dispatcher's callable", fn_ok, wrapper, c,
                     msg=f"{wrapper.short}: `{unparse(c)[:70]}` maps the likelihood with an unknown callable", key=f"mapper:{norm_text(c.func)[:40]}")
             first = c.args[0] if c.args else None
@@ -125,7 +144,10 @@ def rule_a(ctx: Context, R: Reporter, wrapper: FuncInfo, disp: FuncInfo):
             R.check("C13.a", "the mapped points are the wrapper's batch argument itself", batch_ok, wrapper, c,
                     msg=f"{wrapper.short}: `{unparse(c)[:70]}` maps the likelihood over `{unparse(pts) if pts is not None else '?'}`, not over the batch it was given: a permuted, "
                         f"de-duplicated or sub-selected batch changes what the user function sees (and how often) depending on the evaluation mode", key=f"mapper-batch:{norm_text(c.func)[:40]}")
-    R.floor("C13.a", "map sites in the wrapper", n, 2)
+    # what the obligation quantifies over is the callables that can map the likelihood (builtin map, the
+    # dispatcher's result), whether they are written as two call sites or as one call of a local name
+    n_callables = sum(len(_callable_sources(wrapper, c)) for c in calls_in(wrapper.node) if any(_is_user_like_ref(a) for a in c.args))
+    R.floor("C13.a", "mapping callables in the wrapper", n_callables, 2)
     # laziness: builtin map (also what the dispatcher returns for a pool of <= 1 processes) yields a one-shot iterator;
     # the result must be materialised before it is subscripted, measured or iterated a second time
     disp_may_be_lazy = any(isinstance(rn.stmt.value, ast.Name) and rn.stmt.value.id == "map" for rn in rets)
@@ -136,7 +158,8 @@ def rule_a(ctx: Context, R: Reporter, wrapper: FuncInfo, disp: FuncInfo):
     for c in calls_in(wrapper.node):
         if not any(_is_user_like_ref(a) for a in c.args):
             continue
-        lazy = (isinstance(c.func, ast.Name) and c.func.id == "map") or (isinstance(c.func, ast.Call) and disp_may_be_lazy)
+        srcs_ = _callable_sources(wrapper, c)
+        lazy = any((isinstance(x, ast.Name) and x.id == "map") or (isinstance(x, ast.Call) and disp_may_be_lazy) for x in srcs_)
         if not lazy:
             continue
         par = parents.get(id(c))
